@@ -288,7 +288,10 @@ func (s *sweepReader) Read(p []byte) (int, error) {
 	case s.k == len(s.prefix):
 		binary.BigEndian.PutUint32(p, s.v)
 	default:
-		binary.BigEndian.PutUint32(p, uint32(s.k-len(s.prefix)-1)) // fallback words 0,1,2,... (small, hence accepted by any sane sampler)
+		// words after v: a fixed scattered sequence, so that ANY sampler that accepts more than half of all words comes
+		// to an end quickly (consecutive small numbers would all be rejected by a sampler that rejects at the low end)
+		j := uint32(s.k - len(s.prefix) - 1)
+		binary.BigEndian.PutUint32(p, (j+1)*2654435761+0x9E3779B9)
 	}
 	s.k++
 	return 4, nil
